@@ -614,7 +614,7 @@ func checkC16(c *Ctx) {
 	c.checkMaxPlaceholders("O4 max-placeholder")
 	// the size stored for a metric is the calculator's result for the very structure that is emitted
 	// (no arithmetic on measured sizes: varint length prefixes make sizes non-additive) - shared with C12
-	c.shared(checkC12, map[string]string{"O2 size-provenance": "O3 size-provenance", "O4b bucket-tags": "O3 bucket-tags", "O8 own-resource-pool": "O3 own-resource-pool"})
+	c.shared(checkC12, map[string]string{"O2 size-provenance": "O3 size-provenance", "O4b bucket-tags": "O3 bucket-tags", "O8 own-resource-pool": "O3 own-resource-pool", "O4a envelope": "O3 envelope"})
 	// the vendored wire protocols and the read transport: writer/reader agreement (c16wire.go)
 	c.checkWirePrimitives("O5 wire-primitives")
 	c.checkHeaderSequences("O5 header-sequences")
